@@ -163,90 +163,107 @@ def r12_2(ctx):
     ctx.check(ok, "clone constructs the new stage under the given parent with the overrides", detail="constructor call", expected="Stage(parent, **kwargs)", found="; ".join(ast.unparse(c) for c in ctor), fi=f)
 
 
-@rule("R12.3", min_instances=7, desc="clone renews placeholders (T, t0, t mapped to the clone's own; others fresh) and substitutes them in constraints, objective and guess keys with matching offsets")
-def r12_3(ctx):
+def clone_scenario(ctx):
+    """Stage.clone run by the simulator (rkverif/sim.py) on a template with five placeholders (T, t0, t and two others), constraints
+    on two grids (2 + 1, a third grid empty), an objective, two guesses and one offset operand.  `substitute` is given the meaning
+    'element-wise marker', so that the result shows what was substituted and where it ended up."""
+    from ..sim import Sim, fresh_obj
+    from ..layout import Sym, Obj, freeze
     P = ctx.prog
+    cache = P.__dict__.setdefault("_clone_sim", {})
+    if "r" in cache:
+        return cache["r"]
     f = P.own_method("Stage", "clone")
-    sc = ctx.scope(f)
-    apps = [c for c in walk_no_nested(f.node) if is_call_to(c, "append", "subst_to")]
-    table = {}
-    def flat(v, gs):
-        # canonical form of an if/elif chain of appends is one append of a nested conditional expression
-        if isinstance(v, ast.IfExp):
-            flat(v.body, gs + [(ast.unparse(v.test), True)])
-            flat(v.orelse, gs + [(ast.unparse(v.test), False)])
-        else:
-            pos = [g for g, p in gs if p]
-            table[pos[-1] if pos else "else"] = ast.unparse(v)
-    for a in apps:
-        flat(a.args[0], [(ast.unparse(t), p) for t, p in sc.guards(a)])
-    loopv = None
-    for l in walk_no_nested(f.node):
-        if isinstance(l, ast.For) and ast.unparse(l.iter) == "self._placeholders.keys()" and any(a in list(ast.walk(l)) for a in apps):
-            loopv = l.target.id
-    want = {"is_equal(%s, self.T)" % loopv: "ret.T", "is_equal(%s, self.t0)" % loopv: "ret.t0", "is_equal(%s, self.t)" % loopv: "ret.t",
-            "else": "MX.sym(%s.name(), %s.sparsity())" % (loopv, loopv)}
-    ctx.check(table == want, "clone maps T, t0, t to the clone's own placeholders and renews the others", detail="clone keeps referring to the template's placeholders (stages interfere)",
-              expected=want, found=table, fi=f, sample={"map": table})
-    sf = [d for d in sc.defs.get("subst_from", []) if d.kind == "assign"]
-    ok = len(sf) == 1 and ast.unparse(sf[0].value) == "list(self._placeholders.keys())"
-    ctx.check(ok, "clone substitutes every placeholder of the template", detail="substitution source", expected="subst_from = list(self._placeholders.keys())", found=ast.unparse(sf[0].value) if sf else None, fi=f)
-    reg = [st for st in walk_no_nested(f.node) if isinstance(st, ast.Assign) and isinstance(st.targets[0], ast.Subscript) and ast.unparse(st.targets[0].value) == "ret._placeholders"]
-    ew = elementwise_text(sc, reg[0]) if len(reg) == 1 else None
-    n12 = ctx.norm(f)
-    ok = ew is not None and ew[0].startswith("ret._placeholders[subst_to[@]] = ") and set(ew[1]) & {"subst_from", "subst_to"}
-    ctx.check(ok, "clone registers every renewed placeholder with the template's definition", detail="placeholder registration", expected="for old,new in zip(subst_from, subst_to): ret._placeholders[new] = <definition of old>", found=ew[0] if ew else "", fi=f)
+    phT, pht0, pht, ph1, ph2 = (Sym("ph", x) for x in ("T", "t0", "t", "at_tf_x", "sum_e"))
+    K = freeze
+    tpl_ph = [(phT, ("T", Sym("expr", "T"), Sym("argsT"), Sym("kwT"))), (pht0, ("t0", Sym("expr", "t0"), Sym("a0"), Sym("k0"))), (pht, ("t", Sym("expr", "t"), Sym("a"), Sym("k"))),
+              (ph1, ("at_tf", Sym("expr", "x"), Sym("a1"), Sym("k1"))), (ph2, ("sum", Sym("expr", "e"), Sym("a2"), Sym("k2")))]
+    cons = {"control": [(Sym("c", 0), Sym("m", 0), Sym("a", 0)), (Sym("c", 1), Sym("m", 1), Sym("a", 1))], "point": [(Sym("c", 2), Sym("m", 2), Sym("a", 2))], "integrator": []}
+    guesses = [(Sym("g", 0), Sym("v", 0)), (Sym("g", 1), Sym("v", 1))]
+    me = fresh_obj("self", _is_original=True, _stages=[], T=phT, t0=pht0, t=pht, _placeholders={K(k): v for k, v in tpl_ph}, _constraints={g: list(v) for g, v in cons.items()},
+                   _objective=Sym("objective"), _initial={K(k): v for k, v in guesses}, _offsets={K(Sym("off", 0)): (Sym("oe", 0), 1)},
+                   _method=fresh_obj("method", T=Sym("mT"), t0=Sym("mt0")), _T=Sym("_T"), _t0=Sym("_t0"))
+    ret = fresh_obj("ret", T=Sym("retT"), t0=Sym("rett0"), t=Sym("rett"), _placeholders={}, _initial={}, _constraints={})
+    subs = []
+
+    def h_substitute(sim, recv, args, kwargs, n):
+        if len(args) != 3 or not isinstance(args[0], list):
+            return NotImplemented
+        subs.append((list(args[0]), list(args[1]) if isinstance(args[1], (list, tuple)) else args[1], list(args[2]) if isinstance(args[2], (list, tuple)) else args[2]))
+        return [Sym("subst", freeze(x)) for x in args[0]]
+
+    def h_copy(sim, recv, args, kwargs, n):
+        x = args[0]
+        return Obj(x.name + "'", dict(x.attrs)) if isinstance(x, Obj) else Sym("copy", freeze(x))
+    hooks = {"substitute": h_substitute, "ca.substitute": h_substitute, "is_equal": lambda s_, r, a, k, n: freeze(a[0]) == freeze(a[1]), "copy": h_copy, "deepcopy": h_copy,
+             "Stage": lambda s_, r, a, k, n: ret, "defaultdict": lambda s_, r, a, k, n: {}, "HashDict": lambda s_, r, a, k, n: {},
+             "HashOrderedDict": lambda s_, r, a, k, n: ({freeze(x): y for x, y in a[0]} if a else {})}
+    truth = {"isinstance(ph_expr, MX)": True, "'T' not in kwargs": True, "'t0' not in kwargs": True, "'T' in kwargs": False, "'t0' in kwargs": False}
+    # the test on the kind of a placeholder's expression may be spelled with any local name
+    for n_ in ast.walk(f.node):
+        if isinstance(n_, ast.Call) and isinstance(n_.func, ast.Name) and n_.func.id == "isinstance" and len(n_.args) == 2 and ast.unparse(n_.args[1]) == "MX":
+            truth[ast.unparse(n_)] = True
+    sim = Sim(P, hooks=hooks, truth=truth)
+    out = sim.call(f, [me, Sym("parent")], {})
+    cache["r"] = (f, out, ret, subs, tpl_ph, cons, guesses)
+    return cache["r"]
+
+
+@rule("R12.3", min_instances=7, desc="clone renews placeholders (T, t0, t mapped to the clone's own; others fresh) and substitutes them in placeholder definitions, constraints, objective and guess keys - decided on the result of a simulated clone() of a template with five placeholders, three constraints on two grids, an objective and two guesses")
+def r12_3(ctx):
+    from ..layout import Sym, freeze, short, LayoutUnknown
+    try:
+        f, out, ret, subs, tpl_ph, cons, guesses = clone_scenario(ctx)
+    except LayoutUnknown as e:
+        raise AnalysisError("Stage.clone could not be simulated: %s" % e)
+    K = freeze
+    ctx.check(out is ret, "clone returns the stage it built", detail="returned object", expected="return ret", found=short(out), fi=f)
+    php = ret.attrs.get("_placeholders")
+    keys = list(php.keys()) if isinstance(php, dict) else []
+    want_fixed = [K(Sym("retT")), K(Sym("rett0")), K(Sym("rett"))]
+    tplk = [K(k) for k, _ in tpl_ph]
+    ok = len(keys) == 5 and keys[:3] == want_fixed and all(k not in tplk and k not in want_fixed for k in keys[3:]) and len(set(keys)) == 5
+    ctx.check(ok, "clone maps T, t0, t to the clone's own placeholders and renews the others", detail="clone keeps referring to the template's placeholders (stages interfere)",
+              expected="[ret.T, ret.t0, ret.t, fresh, fresh]", found=[short(k)[:40] for k in keys], fi=f, sample={"map": [short(k)[:40] for k in keys]})
+    full = [s_ for s_ in subs if isinstance(s_[1], list) and isinstance(s_[2], list)]
+    ok = bool(subs) and len(full) == len(subs) and all([K(x) for x in fr] == tplk and [K(x) for x in to] == keys for _, fr, to in full)
+    ctx.check(ok, "clone substitutes every placeholder of the template", detail="substitution source / target lists", expected="every substitute(.., all template placeholders, their renewed symbols)",
+              found="%d substitute calls, %d with complete lists" % (len(subs), sum(1 for _, fr, to in full if [K(x) for x in fr] == tplk and [K(x) for x in to] == keys)), fi=f)
+    vals = list(php.values()) if isinstance(php, dict) else []
+    ok = len(vals) == 5 and all(isinstance(v, tuple) and len(v) == 4 and v[0] == d[0] and K(v[2]) == K(d[2]) and K(v[3]) == K(d[3]) for v, (_, d) in zip(vals, tpl_ph))
+    ctx.check(ok, "clone registers every renewed placeholder with the template's definition", detail="placeholder registration", expected="ret._placeholders[new] = (species, expr, args, kwargs) of old", found=[short(v)[:60] for v in vals[:2]], fi=f)
+    ok = len(vals) == 5 and all(isinstance(v, tuple) and len(v) == 4 and K(v[1]) == K(Sym("subst", K(d[1]))) for v, (_, d) in zip(vals, tpl_ph))
+    ctx.check(ok, "clone renews the placeholders nested inside a placeholder's own expression", detail="a clone's sum/integral/at_tf expression keeps referring to the template's placeholders (its at_tf(x), t, T): stages interfere silently",
+              expected="expr of every definition substituted", found=[short(v[1])[:40] if isinstance(v, tuple) and len(v) == 4 else short(v)[:40] for v in vals], fi=f, sample={"registration": [short(v)[:50] for v in vals[:1]]})
+    obj = ret.attrs.get("_objective")
+    ctx.check(K(obj) == K(Sym("subst", K(Sym("objective")))), "clone unpacks the objective at the offset it was packed", detail="objective / constraints / guesses mixed up in the clone", expected="substituted objective of the template",
+              found=short(obj)[:60], fi=f)
+    ini = ret.attrs.get("_initial")
+    ok = isinstance(ini, dict) and list(ini.keys()) == [K(Sym("subst", K(g))) for g, _ in guesses] and [K(v) for v in ini.values()] == [K(v) for _, v in guesses]
+    ctx.check(ok, "clone pairs the substituted guess keys with the template's guess values", detail="guess table of the clone", expected="{substituted key i: value i}", found=short(list(ini.items()))[:100] if isinstance(ini, dict) else short(ini), fi=f)
+    rc = ret.attrs.get("_constraints")
+    ok = isinstance(rc, dict)
     if ok:
-        # the definition is (species, expression, args, kwargs): the expression may contain the template's own t / T / t0 and other
-        # placeholders (sum((x - at_tf(x))**2)); they must be mapped to the clone's, like constraints and objective are
-        v = reg[0].value
-        leaf = v
-        if isinstance(leaf, ast.Name):
-            leaf = sc.reaching(leaf.id, leaf) or leaf
-        substituted = False
-        for x in ast.walk(leaf) if isinstance(leaf, ast.AST) else []:
-            if is_call_to(x, "substitute") and len(x.args) == 3 and [ast.unparse(a) for a in x.args[1:]] == ["subst_from", "subst_to"]:
-                substituted = True
-        # the expression may also be renewed in a statement before the registration, inside the same loop
-        lp = sc.enclosing_loops(reg[0])[-1][2]
-        for x in ast.walk(lp):
-            if is_call_to(x, "substitute") and len(x.args) == 3 and [ast.unparse(a) for a in x.args[1:]] == ["subst_from", "subst_to"]:
-                substituted = True
-        ctx.check(substituted, "clone renews the placeholders nested inside a placeholder's own expression", detail="a clone's sum/integral/at_tf expression keeps referring to the template's placeholders (its at_tf(x), t, T): stages interfere silently",
-                  expected="expr = substitute([expr], subst_from, subst_to)[0] before ret._placeholders[new] = (species, expr, args, kwargs)", found=ast.unparse(reg[0]), fi=f, node=reg[0],
-                  sample={"registration": ast.unparse(reg[0])})
-    subs = [c for c in walk_no_nested(f.node) if is_call_to(c, "substitute") and len(c.args) == 3 and not sc.enclosing_loops(c)]
-    ok = len(subs) == 1 and [ast.unparse(a) for a in subs[0].args] == ["orig", "subst_from", "subst_to"]
-    ctx.check(ok, "clone substitutes in one pass over constraints + objective + guess keys", detail="substitution call", expected="res = substitute(orig, subst_from, subst_to)", found="; ".join(ast.unparse(c) for c in subs), fi=f)
-    # packing / unpacking offsets
-    n = ctx.norm(f)
-    obj = [st for st in walk_no_nested(f.node) if isinstance(st, ast.Assign) and ast.unparse(st.targets[0]) == "ret._objective"]
-    ok = len(obj) == 1 and ast.unparse(obj[0].value) == "res[n_constr]"
-    # order of events on the packed list: constraints ..., n_constr = len(orig), objective, guess keys
-    events = []
-    for st in walk_no_nested(f.node):
-        if isinstance(st, ast.Assign) and ast.unparse(st.targets[0]) == "orig" and "_constraints" in ast.unparse(st.value):
-            events.append((sc.order[st], "constraints"))
-        elif isinstance(st, ast.Assign) and ast.unparse(st.targets[0]) == "n_constr" and ast.unparse(st.value) == "len(orig)":
-            events.append((sc.order[st], "len"))
-        elif isinstance(st, ast.Call) and isinstance(st.func, ast.Attribute) and ast.unparse(st.func.value) == "orig" and st.func.attr in ("extend", "append") and st.args:
-            a0 = st.args[0]
-            if is_call_to(a0, "list") and len(a0.args) == 1:
-                a0 = a0.args[0]
-            t = ast.unparse(a0)
-            events.append((sc.order[st], "constraints" if "_constraints" in t else "objective" if t == "self._objective" else "initial" if t == "self._initial.keys()" else "other:" + t))
-    seq = [e for _, e in sorted(events)]
-    dedup = [e for i, e in enumerate(seq) if i == 0 or e != seq[i - 1]]
-    ok = ok and dedup == ["constraints", "len", "objective", "initial"]
-    ctx.check(ok, "clone unpacks the objective at the offset it was packed", detail="objective / constraints / guesses mixed up in the clone", expected="orig = constraints; n = len(orig); orig += [objective] + initial keys; objective = res[n]", found=str(dedup), fi=f)
-    ini = [st for st in walk_no_nested(f.node) if isinstance(st, ast.Assign) and ast.unparse(st.targets[0]) == "ret._initial"]
-    ok = len(ini) == 1 and Norm(None).key(ini[0].value) == Norm(None).key(ast.parse("HashOrderedDict(zip(res[n_constr+1:], self._initial.values()))", mode="eval").body)
-    ctx.check(ok, "clone pairs the substituted guess keys with the template's guess values", detail="guess table of the clone", expected="HashOrderedDict(zip(res[n_constr+1:], self._initial.values()))", found=ast.unparse(ini[0].value) if ini else None, fi=f)
-    con = [st for st in walk_no_nested(f.node) if isinstance(st, ast.Assign) and ast.unparse(st.targets[0]) == "ret._constraints[k]"]
-    ok = len(con) == 1 and "zip(r," in ast.unparse(con[0].value)
-    adv = [st for st in walk_no_nested(f.node) if isinstance(st, ast.Assign) and ast.unparse(st.targets[0]) == "r" and ast.unparse(st.value) == "r[len(v):]"]
-    ok = ok and len(adv) == 1 and sc.order[adv[0]] > sc.order[con[0]]
-    ctx.check(ok, "clone distributes the substituted constraints back over their grids in packing order", detail="constraints of one grid attached to another", expected="for k in grids: ret._constraints[k] = zip(r, metas, args); r = r[len(v):]", found="", fi=f)
+        for g, lst in cons.items():
+            got = rc.get(g, [])
+            got = list(got) if isinstance(got, (list, tuple)) else None
+            if got is None or len(got) != len(lst):
+                ok = False
+                break
+            for (c, m, a), t in zip(lst, got):
+                if not (isinstance(t, tuple) and len(t) == 3 and K(t[0]) == K(Sym("subst", K(c))) and K(m) in [x for x in _subterms(K(t[1]))] and K(t[2]) == K(a)):
+                    ok = False
+    ctx.check(ok, "clone distributes the substituted constraints back over their grids in packing order", detail="constraints of one grid attached to another", expected="ret._constraints[grid][i] = (substituted c, merged meta, args) of the template's grid[i]",
+              found=short({g: v for g, v in rc.items()})[:160] if isinstance(rc, dict) else short(rc), fi=f)
+
+
+def _subterms(t):
+    stack = [t]
+    while stack:
+        x = stack.pop()
+        yield x
+        if isinstance(x, tuple):
+            stack.extend(x)
 
 
 @rule("R12.4", min_instances=4, desc="one Opti per tree: sub-stages use the master's Opti; only the master creates it")
